@@ -170,6 +170,43 @@ def boundary_cases(r, n):
     return out
 
 
+def general_position_cases(r):
+    """per-method floor for the finiteness clause: every method x every neighbour search x every solver it supports,
+    generic data, target_dimension within the rank of the method's problem, parameters strictly inside their ranges"""
+    out = []
+    for m in METHODS:
+        nms = NMS if (m in USES_NEIGHBORS or m == "spe") else [None]
+        ems = EMS if m in USES_EIGEN and m not in ("le", "lpp", "npe", "lltsa") else (["dense"] if m in USES_EIGEN else [None])
+        for nm in nms:
+            for em in ems:
+                for dcls in ("1", "2") * (3 if nm is None else 1):
+                    N = r.choice([8, 17, 17, 40])
+                    D = r.choice([3, 10])
+                    c = {"method": m, "N": N, "D": D, "d": int(dcls), "data": "generic", "seed": r.range(1, 999)}
+                    if nm:
+                        c["nm"] = nm
+                        c["k"] = r.choice([6, 7]) if N > 8 else 6
+                    if em:
+                        c["em"] = em
+                    if m in ("dm", "le", "lpp"):
+                        c["width"] = "64"
+                    if m == "spe":
+                        c["spe_global"] = r.choice([0, 1])
+                        c["maxit"] = 40
+                    if m == "tsne":
+                        c["d"] = 2 if dcls == "2" else r.choice([2, 3])
+                        c["perp"] = "2"
+                        c["theta"] = "1/2" if c["d"] == 2 and dcls == "2" else "0"
+                    if m in ("lmds", "lisomap"):
+                        c["ratio"] = r.choice(["1/2", "3/4"])
+                    if m == "ms":
+                        c["maxit"] = 5
+                    if m == "fa":
+                        c["maxit"] = 20
+                    out.append(c)
+    return out
+
+
 def product_cases(r, tier):
     """thorough: a covering design of the product (A: every method x back-ends x d-class x k-class x data class with
     N, D rotating; B: every method x N x D x data class with the rest sampled; C: boundary cases).
@@ -186,6 +223,7 @@ def product_cases(r, tier):
                 c = base_case(r, m, 17, int(c["D"]), r.choice(D_CLASSES), r.choice(K_CLASSES), data)
             cases.append(c)
         cases += boundary_cases(r, 110)
+        cases += general_position_cases(r)
         return cases
     rot = 0
     for m in METHODS:
@@ -207,6 +245,8 @@ def product_cases(r, tier):
                 for data in DATA:
                     cases.append(base_case(r, m, N, D, r.choice(D_CLASSES), r.choice(K_CLASSES), data))
     cases += boundary_cases(r, 1000)
+    for _ in range(6):
+        cases += general_position_cases(r)
     return cases
 
 
@@ -508,6 +548,7 @@ def judge(ctx, plan, label):
                 ctx.stat("obs:" + obs.split(":")[0].split("@")[0])
             if pred.get("finite") == "1":
                 ctx.stat("general-position-cases")
+                ctx.c01_judged[c["method"]] = ctx.c01_judged.get(c["method"], 0) + 1
             ok, sig, what = oracle(ctx, c, obs, pred)
             if not ok:
                 ctx.c01_failures.append({"sig": sig, "case": c, "obs": obs, "stderr": errtail, "pred": pred,
@@ -564,9 +605,14 @@ def report_failures(ctx):
 
 
 def build_flags(debug):
-    f = [x for x in vlib.HARNESS_FLAGS if x not in ("-O1", "-g")] + ["-O0", "-g1"]
+    """-O0 -g1 (line tables are needed to name the library frame of an abort); ASan + UBSan + _GLIBCXX_ASSERTIONS from
+    vlib.HARNESS_FLAGS.  UBSan's pointer checks (null / alignment / vptr / object-size) are left out: they make the
+    Eigen-heavy translation unit a third slower to compile and what they would report here (a dereference outside an
+    object) is ASan's subject anyway; integer overflow, shifts, float casts, bounds, returns … stay on."""
+    f = [x for x in vlib.HARNESS_FLAGS if x not in ("-O1", "-g")] + ["-O0", "-g1", "-pipe"]
+    f += ["-fno-sanitize=null,alignment,vptr,object-size,nonnull-attribute,returns-nonnull-attribute"]
     if debug:
-        f += ["-DTAPKEE_DEBUG", "-fno-sanitize=null,alignment,vptr,object-size,nonnull-attribute,returns-nonnull-attribute"]
+        f += ["-DTAPKEE_DEBUG"]
     return f
 
 
@@ -617,6 +663,7 @@ def correspond(ctx):
     load_documented(ctx)
     site_status(ctx)
     ctx.c01_failures = []
+    ctx.c01_judged = {}
     t0 = time.time()
     a, la, b, lb = build_both(ctx)
     ctx.log("harness builds ready in %.1fs" % (time.time() - t0))
@@ -655,6 +702,12 @@ def correspond(ctx):
     else:
         judge(ctx, [(A, a, first + cases), (B, b, [dict(c) for c in first] + [dict(c) for c in cases[::3]])], "witnesses+product")
     report_failures(ctx)
+    ctx.extra["finiteness_judged_per_method"] = {m: ctx.c01_judged.get(m, 0) for m in METHODS}
+    for m in METHODS:
+        if ctx.c01_judged.get(m, 0) == 0:
+            ctx.broken("coverage:finiteness:" + m, "sweep coverage (general-position cases of %s)" % m,
+                       "no configuration of %s was judged under the finiteness clause in this run: the model never "
+                       "declared general position for it (generator or Model/Pipeline.mustBeFinite too narrow)" % m)
     ctx.cov["rule"] = ("configurations of the public API drawn from 20 methods x {brute,vptree,covertree} x {dense,randomized} x "
                        "d in {1,2,3,N-2,N-1} x k in {3,4,N/5,N-1} x data in {generic,dup(>=k+2 coincident),lattice,collinear,"
                        "constant,widerange 1e12} x N in {1,2,3,4,5,8,17,40} x D in {1,2,3,10} + keyword-boundary cases "
